@@ -262,3 +262,40 @@ Definition jitter_slot (dt : dtype) (fv dv hv : option F) : option F :=
 End SettingsContexts.
 Arguments CtxMaxTries {F}.
 Arguments CtxTrace {F}.
+
+(* ---------------------------------------------------------------- histories of __enter__ / __exit__ on context OBJECTS
+   Every context object keeps its own stack of saved values (`self._orig_*_values` / `self._orig_values` / `self._prev_states`):
+   __enter__ pushes the values in force and sets its own, __exit__ pops and restores.  One object may be entered again while it is
+   still open (re-entrant use) or after it was left (re-use).  `objs` = the context objects (by index), the state is the global
+   settings together with one stack per object.  (The whole settings record is pushed; only the components the object's class owns
+   are restored — the same as saving only those.) *)
+Section SettingsHistories.
+Variable F : Type.
+
+Inductive event := Enter (k : nat) | Exit (k : nat).
+
+Definition restore (c : context F) (saved st : settings F) : settings F :=
+  match c with
+  | CtxJitter _ _ _ => MkSettings (cj_float saved) (cj_double saved) (cj_half saved) (cmt_value st) (trace_on st)
+  | CtxMaxTries _ => MkSettings (cj_float st) (cj_double st) (cj_half st) (cmt_value saved) (trace_on st)
+  | CtxTrace _ => MkSettings (cj_float st) (cj_double st) (cj_half st) (cmt_value st) (trace_on saved)
+  end.
+
+Definition step (objs : list (context F)) (w : settings F * list (list (settings F))) (e : event)
+  : settings F * list (list (settings F)) :=
+  let '(st, stacks) := w in
+  match e with
+  | Enter k => match nth_error objs k with
+               | Some c => (enter st c, upd_nth k (cons st) stacks)
+               | None => w
+               end
+  | Exit k => match nth_error objs k, nth k stacks [] with
+              | Some c, saved :: _ => (restore c saved st, upd_nth k (@tl _) stacks)
+              | _, _ => w                                   (* pop from an empty list: IndexError in the library *)
+              end
+  end.
+
+Definition run (objs : list (context F)) (w : settings F * list (list (settings F))) (evs : list event) :=
+  fold_left (step objs) evs w.
+
+End SettingsHistories.
